@@ -22,16 +22,27 @@ WITNESSES = {
         ('maildir "~/md" {\n\tmatch all {\n\t\tmatch header "X-0" /^1$/ label "x" pass\n\t\tmatch header "X-1" /^1$/ break\n\t}\n}\n',
          [('^1$', ''), ('^1$', '')], [True, True, False, False, False, False]),
     ],
+    # something other than `pass` after a `pass` in the same action list is never evaluated (Proofs.actionAfterPass, formal witness
+    # C03_actions_after_pass_ignored): labelled, not moved.  Reported as a KNOWN-FINDING once the class is listed, until then counted in the
+    # coverage as a candidate finding
+    'actions-after-pass-ignored': [
+        ('maildir "~/md" {\n\tmatch all label "x" pass move "~/dst/y"\n}\n', [], [False] * 6),
+        ('maildir "~/md" {\n\tmatch header "X-0" /^1$/ pass label "x"\n\tmatch all move "~/dst/d"\n}\n', [('^1$', '')], [True] + [False] * 5),
+    ],
 }
+# placement class (driver `placementClass`) -> finding class of an evaluation that departs from the documented outcome there
+PLACEMENT_FINDING = {'AFTERPASS': 'actions-after-pass-ignored', 'ATTAFTERBREAK': 'attachment-block-after-break'}
 
 
 def small_trees():
-    """Bounded-exhaustive: <= 2 rules per block, one nesting level, actions from {label, move} x ctl."""
+    """Bounded-exhaustive: <= 2 rules per block, one nesting level, actions from {label, move} x ctl; the control action last, and
+    (second group) in the other places the grammar accepts: first, repeated, before and after an action."""
     bodies = []
     for ctl in ('', ' pass', ' break'):
         for act in ('label "l%d"', 'move "~/dst/m%d"', ''):
             if act or ctl:
                 bodies.append((act, ctl))
+    bodies += [('break label "l%d"', ''), ('break move "~/dst/m%d"', ' break'), ('label "l%d"', ' pass pass'), ('break', ' break')]
     def rules(n, depth, ctr):
         if n == 0:
             yield []
@@ -60,7 +71,7 @@ def render(rs, ctr, pats, indent=1):
         pats.append(('^1$', ''))
         cond = '%sheader "X-%d" /^1$/' % (r[1], i)
         if r[0] == 'acts':
-            act = (r[2] % ctr[0]) if r[2] else ''
+            act = (r[2] % ctr[0]) if '%d' in r[2] else r[2]
             out += '\t' * indent + 'match %s %s%s\n' % (cond, act, r[3])
         else:
             out += '\t' * indent + 'match %s {\n%s' % (cond, render(r[2], ctr, pats, indent + 1)) + '\t' * indent + '}\n'
@@ -142,16 +153,26 @@ def seq_jobs(tier, rng):
                 jobs.append((sub, s, 1))
             elif len(s) > 2:
                 jobs.append((sub, s, rng.randrange(1, len(s))))
-    jobs = [j + (False,) for j in jobs]
+    jobs = [j + (False, None) for j in jobs]
     # the destination maildir on another device (renameat fails with EXDEV: the message is copied and the original removed)
-    exdev = [j[:3] + (True,) for j in jobs if 'moveA' in j[1] and 2 <= len(j[1]) <= 3]
-    return jobs + (rng.sample(exdev, 40) if tier == 'quick' else exdev)
+    exdev = [j[:3] + (True, None) for j in jobs if 'moveA' in j[1] and 2 <= len(j[1]) <= 3]
+    # `break` anywhere in an action list (C03_eval_refines_spec_wide): the first `split` actions stand in a nested block, in ONE rule with a
+    # `break` before, between or after them (position brk, 0 .. split); the block is left, what was collected stays pending, the next rule
+    # of the enclosing block matches and everything is performed in the order listed
+    brk = []
+    for sub, s, split, _, _ in jobs:
+        if split is not None and s[-1] != 'discard':
+            for pos in range(split + 1):
+                brk.append((sub, s, split, False, pos))
+    return jobs + (rng.sample(exdev, 40) if tier == 'quick' else exdev) + (rng.sample(brk, 80) if tier == 'quick' else brk)
 
 
-def dest_request(sub, seq, split, exdev=False):
+def dest_request(sub, seq, split, exdev=False, brk=None):
     """`S dest` request (Spec.destOK, Spec.destPath) for the entries the sequence puts on the match list."""
     codes = []
     for j, a in enumerate(seq):
+        if brk is not None and j == brk:
+            codes.append(NEUTRAL)           # the BREAK entry is in the list while the actions behind it are appended
         if split is not None and j == split:
             codes.append(NEUTRAL)
         codes.append(PACTS[a][1] or NEUTRAL)
@@ -177,9 +198,9 @@ def seq_guard(sub, seq, split):
     return {0: 'command', 1: 'isdir', 2: 'date'}.get(h)
 
 
-def seq_config(sub, seq, split):
+def seq_config(sub, seq, split, brk=None):
     cond = 'new' if sub == 'new' else '! new'
-    g = seq_guard(sub, seq, split)
+    g = seq_guard(sub, seq, split) if brk is None else None      # the nested `break` shapes (p11) stay as they are
     # F21: a message taken from new to cur of the walked maildir is met again when cur is read: every rule is restricted to the
     # subdirectory the subject starts in (as C09 does)
     lines = ['\tmatch header "X-Id" /^99$/ move "%s/dstB"' % R]
@@ -187,7 +208,12 @@ def seq_config(sub, seq, split):
         yes, no = GUARDS[g]
         cond = '%s and %s' % (cond, yes)
         lines.append('\tmatch %s move "%s/dstB"' % (no, R))
-    if split is None:
+    if brk is not None:
+        inner = [PACTS[a][0] for a in seq[:split]]
+        inner.insert(brk, 'break')
+        lines.append('\tmatch %s {\n\t\tmatch %s %s\n\t}' % (cond, cond, ' '.join(inner)))
+        lines.append('\tmatch %s %s' % (cond, ' '.join(PACTS[a][0] for a in seq[split:])))
+    elif split is None:
         lines.append('\tmatch %s %s' % (cond, ' '.join(PACTS[a][0] for a in seq)))
     else:
         lines.append('\tmatch %s %s pass' % (cond, ' '.join(PACTS[a][0] for a in seq[:split])))
@@ -197,13 +223,13 @@ def seq_config(sub, seq, split):
     return 'maildir "%s/src" {\n%s\n}\n' % (R, '\n'.join(lines))
 
 
-def seq_spec(sub, seq, split, exdev=False):
+def seq_spec(sub, seq, split, exdev=False, brk=None):
     tree = {}
     for d in ('src', 'dstA', 'dstB'):
         tree.update(proc.maildir_tree(d, {}))
     tree['src/%s/%s' % (sub, SUBJECT[sub])] = ws.msg(1)
     tree['src/%s/%s' % BYSTANDER[sub]] = ws.msg(2)
-    return ws.Spec('seq', seq_config(sub, seq, split), PPATS, tree=tree, devmap=('%s/dstA' % R,) if exdev else ())
+    return ws.Spec('seq', seq_config(sub, seq, split, brk), PPATS, tree=tree, devmap=('%s/dstA' % R,) if exdev else ())
 
 
 def touched(r, basename, names=MUTATING):
@@ -328,14 +354,14 @@ def sequence_stage(rep, tools, W, rng):
         todo.append((j, vlib.unhex(path).decode('latin-1')))
 
     def one(item):
-        (sub, seq, split, exdev), destpath = item
-        spec = seq_spec(sub, seq, split, exdev)
+        (sub, seq, split, exdev, brk), destpath = item
+        spec = seq_spec(sub, seq, split, exdev, brk)
         scen = spec.build(tools)
         try:
             r = scen.run()
             probs = judge_seq(sub, seq, destpath, scen, r, exdev)
             req, tr, notes = W.request(scen, spec.pats, r)
-            return {'sub': sub, 'seq': list(seq), 'split': split, 'exdev': exdev, 'problems': probs, 'req': req, 'scen': scen, 'r': r,
+            return {'sub': sub, 'seq': list(seq), 'split': split, 'exdev': exdev, 'brk': brk, 'problems': probs, 'req': req, 'scen': scen, 'r': r,
                     'config': scen.config.replace(scen.root, R), 'documented_place': destpath}
         finally:
             scen.cleanup()
@@ -344,14 +370,16 @@ def sequence_stage(rep, tools, W, rng):
         results = list(ex.map(one, todo))
     verdicts = W.verdict([x['req'] for x in results])
     stats = {'runs': len(results), 'outside_destOK_not_generated': outside, 'failing': 0, 'nonconforming': 0,
-             'by_length': {}, 'with_pass': sum(1 for x in results if x['split'] is not None),
+             'by_length': {}, 'with_pass': sum(1 for x in results if x['split'] is not None and x['brk'] is None),
+             'with_break_in_nested_block': sum(1 for x in results if x['brk'] is not None),
              'across_devices': sum(1 for x in results if x['exdev'])}
     corr = []
     nrep = 0
     for x, v in zip(results, verdicts):
         stats['by_length'][len(x['seq'])] = stats['by_length'].get(len(x['seq']), 0) + 1
         desc = {'harness': 'process (real binary under the shim)', 'family': 'sequence', 'source_subdir': x['sub'], 'actions': x['seq'],
-                'pass_after': x['split'], 'dstA_on_other_device': x['exdev'], 'config': x['config'], 'documented_place': x['documented_place']}
+                'pass_after': x['split'], 'break_at': x['brk'], 'dstA_on_other_device': x['exdev'], 'config': x['config'],
+                'documented_place': x['documented_place']}
         unlisted = [t for c, t in x['problems'] if c == 'unlisted']
         if unlisted:
             stats['failing'] += 1
@@ -538,7 +566,7 @@ def run(rep):
         del trees
         # 3. random trees with every operator, attachments, errors, dates, interpolation
         for _ in range(nrand):
-            g = gen_rules.Gen(rng, depth=rng.choice([0, 1, 2, 2, 3]), rules_max=rng.choice([2, 3, 4]))
+            g = gen_rules.Gen(rng, depth=rng.choice([0, 1, 2, 2, 3]), rules_max=rng.choice([2, 3, 4]), ctl_anywhere=True)
             conf = g.config()
             pats = list(g.patterns)
             for _ in range(3):
@@ -555,7 +583,9 @@ def run(rep):
         for conf, pats, msg, kinds, expect in gen_rules.attachment_error_cases(random.Random(rep.seed + 2), natt):
             yield ec.Case(conf, pats, msg), ('att', kinds, expect)
 
-    stats = {'compared_model': 0, 'compared_spec': 0, 'outside_spec_domain': 0, 'crosses': 0, 'conferr': 0, 'MATCH': 0, 'NOMATCH': 0, 'ERROR': 0}
+    stats = {'compared_model': 0, 'compared_spec': 0, 'compared_spec_ctl_not_last': 0, 'outside_spec_domain': 0, 'ctl_mixed_no_documented_meaning': 0,
+             'outside_ctlPlaced': {}, 'outside_ctlPlaced_departing_from_documented': {}, 'crosses': 0, 'conferr': 0, 'MATCH': 0, 'NOMATCH': 0, 'ERROR': 0}
+    candidates = {}     # finding class not (yet) listed -> [count, first example]
     attstats = {'cases': 0, 'compared_with_documented_semantics': 0, 'error_part_before_matching_part': 0, 'result': {}, 'failures': 0}
     # first offenders (payloads, ready to report) and totals
     shape_bad, corr_bad, spec_bad, faults, wit_found, att_bad = [], [], [], [], [], []
@@ -632,6 +662,24 @@ def run(rep):
         sp = ec.spec_plan(c)
         if sp is None:
             stats['outside_spec_domain'] += 1
+            if c.spec == 'NOTWF MIXED':
+                stats['ctl_mixed_no_documented_meaning'] += 1
+            return
+        if sp[4] != 'PLACED':
+            # an action list in one of the named classes outside Proofs.ctlPlaced: the documented outcome is known, the evaluator is known to
+            # depart from it (formal witnesses in Props/C03.lean); compared with the model above, and here only counted / confirmed
+            stats['outside_ctlPlaced'][sp[4]] = stats['outside_ctlPlaced'].get(sp[4], 0) + 1
+            itri, inp, ilast = ec.impl_plan(c)
+            if not sp[1] and (itri, inp, ilast) != planned(sp):
+                stats['outside_ctlPlaced_departing_from_documented'][sp[4]] = stats['outside_ctlPlaced_departing_from_documented'].get(sp[4], 0) + 1
+                cls = PLACEMENT_FINDING.get(sp[4], 'unlisted')
+                payload = dict(c.readable(), implementation=[itri, inp, ilast], documented=list(sp[:4]), placement=sp[4],
+                               what='the action list has %s: the evaluator departs from the documented rule semantics' % sp[4])
+                if is_wit or cls in rep.known:
+                    wit_found.append((cls, payload))
+                else:
+                    h = candidates.setdefault(cls, [0, payload])
+                    h[0] += 1
             return
         if is_wit:
             # pinned finding: confirmed by its witnesses (implementation deviates from the documented outcome)
@@ -643,6 +691,8 @@ def run(rep):
             if not is_wit:
                 return
         stats['compared_spec'] += 1
+        if any(re.search(r'(^|\s)(pass|break) +[^\s}]', l) for l in c.conf.split('\n')):
+            stats['compared_spec_ctl_not_last'] += 1        # a pass / break that is not the last action of its list
         itri, inp, ilast = ec.impl_plan(c)
         if (itri, inp, ilast) != planned(sp):
             if is_wit or sp[1]:
@@ -670,7 +720,11 @@ def run(rep):
     for p in shape_bad:
         rep.finding('unlisted', p)
     for cls, p in wit_found:
-        rep.finding(cls, p)
+        if cls in rep.known:
+            rep.finding(cls, p)
+        else:
+            h = candidates.setdefault(cls, [0, p])       # a witness of a class that is not listed (yet): recorded, no alarm
+            h[0] += 1
     for p in spec_bad:
         rep.finding('unlisted', p)
     for p in faults:
@@ -688,7 +742,7 @@ def run(rep):
         'distinct_nontrivial': len(nontriv),
         'rule': 'bounded-exhaustive trees (<= 2 rules per block, one nesting level, label/move x none/pass/break, negation) with all '
                 'valuations (%d cases%s) + %d random trees x 3 messages (every operator, attachment conditions and blocks, command/'
-                'isdirectory/date/body/header atoms, errors, interpolation templates, pass/break also in unusual places; 30%% of the messages '
+                'isdirectory/date/body/header atoms, errors, interpolation templates, pass/break at every position of an action list and repeated; 30%% of the messages '
                 'multipart, 12%% of those with a boundary out of an RFC 2047 encoded word - newline, CR, "--" - between delimiter look-alikes) + %d finding '
                 'witnesses; each evaluated by the real parser + expr_eval + matches_interpolate and compared with the Lean model '
                 '(exact match list) and, inside the specification domain, with the documented rule semantics; non-trivial = a tree of '
@@ -696,6 +750,7 @@ def run(rep):
         'exhaustive': nsmall < limit,
         'samples': samples,
         'distribution': stats,
+        'candidate_findings_not_listed': {cls: {'inputs': n, 'example': ex} for cls, (n, ex) in candidates.items()},
         'correspondence_mismatches': tot['corr'],
         'spec_failures': tot['spec'],
         'configs_shape_checked': len(seen_conf),
@@ -708,8 +763,9 @@ def run(rep):
         'process_sequences': seqstats,
         'process_sequences_rule': 'real binary under the shim: every single action, every ordered pair of distinct actions and a sample of the '
                                   'triples (thorough: all triples, sampled quadruples) from {move A, flag new, flag !new, flags "F", label, '
-                                  'add-header, exec, exec stdin, discard (alone or after a pass)}, message in new and in cur, as one rule and as two '
-                                  'rules joined by pass, between a rule that does not match and a rule that would (first match wins), with a second '
+                                  'add-header, exec, exec stdin, discard (alone or after a pass)}, message in new and in cur, as one rule, as two '
+                                  'rules joined by pass, and (a sample) with the first rule in a nested block and a `break` before / between / after '
+                                  'its actions, between a rule that does not match and a rule that would (first match wins), with a second '
                                   'message no rule matches.  Judged against the documented meaning: exit 0; the message exactly once at Spec.dest '
                                   '(driver `S dest`; sequences outside Spec.destOK = known finding F12 of C09 are not generated), flags = old '
                                   '+/- S + F, content = original + X-Label / X-Added iff such an action was selected, modification time kept '
@@ -726,6 +782,9 @@ def run(rep):
                                    'Model.mainP (the model\'s directories hold regular files only)',
     })
     rep.assumptions += ['evaluations whose result is decided by a pass/action pending from an enclosing block are excluded (pinned finding)',
+                        'action lists with something other than pass after a pass (AFTERPASS), an attachment block after a break (ATTAFTERBREAK) or both pass '
+                        'and break (MIXED) are outside the domain of the refinement theorem (Proofs.ctlPlaced); they are generated, compared with the model, '
+                        'and the departures from the documented outcome are counted (coverage: outside_ctlPlaced_departing_from_documented, candidate_findings_not_listed)',
                         'matchers whose value depends on the match list (back-references in command/isdirectory, old after flags) are outside the spec domain']
 
 
@@ -741,7 +800,7 @@ def replay(rep, path):
         if j['family'] == 'sequence':
             sub, seq, split = j['source_subdir'], tuple(j['actions']), j['pass_after']
             exdev = bool(j.get('dstA_on_other_device'))
-            spec = seq_spec(sub, seq, split, exdev)
+            spec = seq_spec(sub, seq, split, exdev, j.get('break_at'))
             scen = spec.build(tools)
             r = scen.run()
             probs = judge_seq(sub, seq, j['documented_place'], scen, r, exdev)
